@@ -743,4 +743,8 @@ def check(ctx, rep):
     rule_rebuild_keeps_all(ctx, rep)
     rule_extent_all_names(ctx, rep)
     rule_cut_side(ctx, rep)
+    from .c03 import rule_codec_agree
+
+    # a refactoring must not change the program's string values: text decoded under one codec and written under another does
+    rule_codec_agree(ctx, rep)
     rep.not_covered += ["observational equivalence over programs and runtime values", "SQL parameterisation returning the same rows", "tuple-valued names producing nested tuples in combine_args"]
